@@ -160,7 +160,7 @@ class Normalise(ast.NodeTransformer):
                 if isinstance(v, list):
                     for a, b in zip(v, v[1:]):
                         t = self._temp_of(a)
-                        if t and self._reads_only(b, t):
+                        if t and (self._reads_only(b, t) or self._in_compound_test(b, t, a.value)):
                             pairs[t] = pairs.get(t, 0) + 1
         self.uses = {t for t, k in pairs.items() if loads.get(t, 0) == k}
         self.generic_visit(n)
@@ -187,6 +187,24 @@ class Normalise(ast.NodeTransformer):
             tg = b.targets if isinstance(b, ast.Assign) else [b.target]
             return isinstance(b.value, ast.Name) and b.value.id == t and not any(isinstance(x, ast.Name) and x.id == t for g in tg for x in ast.walk(g))
         return False
+
+    @staticmethod
+    def _in_compound_test(b, t, e):
+        """`t = E` (E call-free) ; `if <and/or/not structure in which t occurs exactly once as an operand>:`"""
+        if not isinstance(b, ast.If) or _has_call(e):
+            return False
+        n = [0]
+
+        def operands(x):
+            if isinstance(x, ast.BoolOp):
+                return all(operands(v) for v in x.values)
+            if isinstance(x, ast.UnaryOp) and isinstance(x.op, ast.Not):
+                return operands(x.operand)
+            if isinstance(x, ast.Name) and x.id == t:
+                n[0] += 1
+                return True
+            return not any(isinstance(y, ast.Name) and y.id == t for y in ast.walk(x))
+        return isinstance(b.test, (ast.BoolOp, ast.UnaryOp)) and operands(b.test) and n[0] == 1
 
     visit_AsyncFunctionDef = visit_FunctionDef
 
@@ -222,6 +240,10 @@ class Normalise(ast.NodeTransformer):
                 return ast.copy_location(ast.If(test=e, body=s.body, orelse=s.orelse), s)
             if isinstance(tt, ast.UnaryOp) and isinstance(tt.op, ast.Not) and isinstance(tt.operand, ast.Name) and tt.operand.id == t:
                 return ast.copy_location(ast.If(test=self.visit(_negate(e)), body=s.body, orelse=s.orelse), s)
+            if self._in_compound_test(s, t, e):
+                sub = _Subst(t, e)
+                test2 = self.visit(sub.visit(copy.deepcopy(tt)))
+                return ast.copy_location(ast.If(test=test2, body=s.body, orelse=s.orelse), s)
             return None
         if isinstance(s, ast.Assign) and isinstance(s.value, ast.Name) and s.value.id == t and self._reads_only(s, t):
             return self.visit_Assign(ast.copy_location(ast.Assign(targets=s.targets, value=e, lineno=s.lineno), s))
